@@ -2,6 +2,8 @@ import BpModel.All
 import BpModel.Json
 import BpProofs.Json
 import BpProofs.JsonRtMain
+import BpProofs.JsonRtInst
+import BpProofs.JsonText
 /-
   C04 — JSON / dict round trip.
 
@@ -48,7 +50,19 @@ import BpProofs.JsonRtMain
       (a oneof selection names a member of that group: the part of the oneof invariant
       `wellTyped` does not state; without it `to_dict` writes nothing for the group and the
       rebuilt message has no selection: `selOk_needed_witness`);
-    * the instance form on a fresh instance and the JSON-text path: see the end of the file.
+    * the instance form and the JSON-text path (`roundtrip_all`, the FULL STATEMENT above under the
+      guards): `to_dict(m)` is JSON serialisable (`isJson`), `json.loads(json.dumps(d)) == d`
+      (`jsonText d = some d`: string keys only, no raw leaf, canonical NaN), and all four
+      combinations {class form, instance form on a fresh instance} × {dict, JSON text} return the
+      SAME message `m'` with `m ≈ m'` and equal bytes (BpProofs/JsonRtInst.lean, JsonText.lean);
+    * NEW excluded region, carved out by the VALUE guard `wellTyped` ("an absent plain sub-message
+      equals a fresh one"), with a `decide`d negation witness (`unmarked_submessage_witness`): a
+      plain (not optional, not oneof) sub-message that is NOT `_serialized_on_wire` but differs
+      from `Sub()` — reached by `m.a.b.x = 1` (only `b` is marked) or `m.a.items.append(1)` —
+      is encoded by `bytes(m)` (the test there is `value != default`) but left out by `to_dict`
+      (the test there is `value._serialized_on_wire`): the dict round trip loses it.
+  NOT PROVED: nothing of the full statement inside the guards.  Outside: the instance form on a
+  NON-fresh instance (merge semantics) is not stated; `include_default_values=True` is not covered.
 -/
 namespace Bp.C04
 open Bp
@@ -321,8 +335,75 @@ theorem selOk_needed_witness :
       = .ok (.msg 0 [.ph, .ph, .none, .ph, .ph, .ph] true [] [Option.none]) :=
   ⟨by decide, by decide, by rfl⟩
 
+/-! ## both forms, both paths -/
+
+/-- **C04, the full statement under the guards**: `d = m.to_dict(casing)` is JSON serialisable,
+    `json.loads(json.dumps(d))` is `d`, and `Cls.from_dict`, `Cls().from_dict`, `Cls.from_json`-style
+    and `Cls().from_json`-style paths all return one and the same message `m'`, which is
+    equivalent to `m` (`DEqv`) and encodes to the same bytes -/
+theorem roundtrip_all (S : Schema) (E : Enums) (cs : KeyCase) (c : Nat) (sl : List Val) (ow : Bool) (unk : Bytes)
+    (cur : List (Option Nat))
+    (hjson : jsonOk S E cs = true) (hgroups : groupsOk S = true)
+    (hwt : wellTyped S (.msg c sl ow unk cur) = true) (hsel : selOk S (.msg c sl ow unk cur) = true) :
+    isJson (toDict S E cs false (.msg c sl ow unk cur)) = true ∧
+    jsonText (toDict S E cs false (.msg c sl ow unk cur)) = some (toDict S E cs false (.msg c sl ow unk cur)) ∧
+    ∃ m', fromDictC S E c (toDict S E cs false (.msg c sl ow unk cur)) = .ok m' ∧
+      fromDictI S E (fresh S c) (toDict S E cs false (.msg c sl ow unk cur)) = .ok m' ∧
+      (jsonText (toDict S E cs false (.msg c sl ow unk cur))).map (fromDictC S E c) = some (.ok m') ∧
+      (jsonText (toDict S E cs false (.msg c sl ow unk cur))).map (fromDictI S E (fresh S c)) = some (.ok m') ∧
+      DEqv S (.msg c sl ow unk cur) m' ∧ dumpVal S m' = dumpVal S (.msg c sl ow unk cur) := by
+  have hS : SchemaOk S E cs := ⟨hjson, hgroups⟩
+  obtain ⟨t1, t2⟩ := toDict_text S E cs hS c sl ow unk cur hwt
+  obtain ⟨a, b, d⟩ := roundtrip_class S E cs hS c sl ow unk cur hwt hsel
+  have i := roundtrip_instance S E cs hS c sl ow unk cur hwt hsel
+  refine ⟨t1, t2, _, a, i, ?_, ?_, b, d⟩
+  · rw [t2, Option.map_some, a]
+  · rw [t2, Option.map_some, i]
+
+/-- `roundtrip_all` on the concrete nested message `m3` (recursive class, oneof, optional
+    sub-message set to its default, repeated sub-messages, `map<string, Node>`) -/
+theorem roundtrip_all_instance :
+    isJson (toDict S3 [] .camel false m3) = true ∧
+    ∃ m', fromDictC S3 [] 0 (toDict S3 [] .camel false m3) = .ok m' ∧
+      fromDictI S3 [] (fresh S3 0) (toDict S3 [] .camel false m3) = .ok m' ∧
+      (jsonText (toDict S3 [] .camel false m3)).map (fromDictI S3 [] (fresh S3 0)) = some (.ok m') ∧
+      DEqv S3 m3 m' ∧ dumpVal S3 m' = dumpVal S3 m3 := by
+  obtain ⟨t1, _, m', a, i, _, ji, b, d⟩ :=
+    roundtrip_all S3 [] .camel 0 _ _ _ _ (by decide) (by decide) (show wellTyped S3 m3 = true by decide) (by decide)
+  exact ⟨t1, m', a, i, ji, b, d⟩
+
+/-! ## a region outside the guards: sub-messages that are set but not marked -/
+
+def Sdeep : Schema := [
+  { fields := [{ name := "a", num := 1, ty := .message, kind := .user 1 }] },
+  { fields := [{ name := "b", num := 1, ty := .message, kind := .user 2 },
+               { name := "items", num := 2, ty := .int32, repeated := true }] },
+  { fields := [{ name := "x", num := 1, ty := .int32 }] }]
+/-- `m = Outer(); m.a.b.x = 1`: `b` is `_serialized_on_wire` (its `__setattr__` ran), `a` is not
+    (it was only materialised by `getattr`) -/
+def mDeep : Val := .msg 0 [.msg 1 [.msg 2 [.int 1] true [] [], .ph] false [] []] false [] []
+/-- `m = Outer(); m.a.items.append(1)` -/
+def mAppend : Val := .msg 0 [.msg 1 [.ph, .list [.int 1]] false [] []] false [] []
+
+/-- outside `wellTyped` (a VALUE guard: "an absent plain sub-message equals a fresh one") the
+    statement is false of the model: `bytes(m)` encodes the sub-message (`value != default`),
+    `to_dict` leaves it out (`value._serialized_on_wire` is False), the round trip loses it.
+    All schema guards hold.  To be replayed on the real code. -/
+theorem unmarked_submessage_witness :
+    jsonOk Sdeep [] .camel = true ∧ groupsOk Sdeep = true ∧ selOk Sdeep mDeep = true ∧
+    wellTyped Sdeep mDeep = false ∧ wellTyped Sdeep mAppend = false ∧
+    dumpVal Sdeep mDeep = .ok [10, 4, 10, 2, 8, 1] ∧
+    toDict Sdeep [] .camel false mDeep = .obj [] [] ∧
+    (fromDictC Sdeep [] 0 (toDict Sdeep [] .camel false mDeep)).bind (dumpVal Sdeep) = .ok [] ∧
+    dumpVal Sdeep mAppend = .ok [10, 3, 18, 1, 1] ∧
+    (fromDictC Sdeep [] 0 (toDict Sdeep [] .camel false mAppend)).bind (dumpVal Sdeep) = .ok [] :=
+  ⟨by decide, by decide, by decide, by decide, by decide, by decide, by rfl, by decide, by decide, by decide⟩
+
 end Bp.C04
 
+#print axioms Bp.C04.roundtrip_all
+#print axioms Bp.C04.roundtrip_all_instance
+#print axioms Bp.C04.unmarked_submessage_witness
 #print axioms Bp.C04.roundtrip_nested
 #print axioms Bp.C04.roundtrip_flat
 #print axioms Bp.C04.roundtrip_nested_instance
